@@ -57,6 +57,7 @@ def run(ck):
         return
     text_agreement(ck)
     ast_agreement(ck)
+    consumer_defines(ck)
 
 
 def text_agreement(ck):
@@ -237,3 +238,52 @@ def ast_agreement(ck):
     if n < MIN_FUNCTIONS_COMPARED:
         raise AnalysisBroken("only %d library functions were compared with the single header (%d confirmed by hand)" % (n, MIN_FUNCTIONS_COMPARED))
     ck.ob("C20-O2", "qtlogger.h vs src/qtlogger", bad == 0, "%d library functions compared with their header-only counterparts, %d disagreements" % (n, bad), key="ast-summary")
+
+
+def consumer_defines(ck):
+    """the single header is compiled with the application's own Qt feature macros, the library with the project's. The one macro that
+    changes the *type* of ordinary library code is QT_USE_QSTRINGBUILDER: `a + b` on strings becomes a QStringBuilder proxy that only
+    holds references to its operands. Stored in an `auto` variable, the proxy outlives a temporary operand (QLatin1Char('/'), a char,
+    a QLatin1String): header-only users read a dead temporary where library users read a QString."""
+    from engine.facts import skip_copies, describe
+    lib = ck.configs.get("lib")
+    ck.rule("C20-O4", "library code keeps its meaning under the consumer-side macro QT_USE_QSTRINGBUILDER: no `auto` variable is initialised by a string concatenation one of whose operands is a "
+                      "non-QString temporary (character / Latin-1 / view wrapper), which the QStringBuilder proxy would reference after its death")
+    n = 0
+    notes = []
+    bad = 0
+
+    def leaves(x):
+        x = skip_copies(x)
+        if isinstance(x, dict) and x.get("k") == "call" and x.get("op") == "+" and len(x.get("args", [])) == 2:
+            return leaves(x["args"][0]) + leaves(x["args"][1])
+        return [x]
+    for f in sorted(lib.fns.values(), key=lambda f: (f.file, f.line, f.sig)):
+        if f.body is None or "/src/qtlogger/" not in (f.file or ""):
+            continue
+        for d in f.find(lambda n: n.get("k") == "decl"):
+            for v in d.get("vars", []):
+                if not v.get("auto") or "QString" not in (v.get("type") or "") or not isinstance(v.get("init"), dict):
+                    continue
+                i = skip_copies(v["init"])
+                if not (i.get("k") == "call" and i.get("op") == "+"):
+                    continue
+                n += 1
+                temps = []
+                for x in leaves(i):
+                    t = (x.get("type") or "").replace("const ", "").strip()
+                    if x.get("k") in ("ref", "member", "this", "str", "qstr") or x.get("k") == "defaultarg":
+                        continue      # lvalues and string literals outlive the variable
+                    if t in ("QString",) or t.startswith("QString"):
+                        notes.append("%s: `auto %s` = concatenation with a temporary QString (same dangling reference in principle; the dead QString's storage stays readable, no failure could be shown)" % (f.loc(d), v.get("name")))
+                        continue
+                    temps.append((x, t))
+                if temps:
+                    bad += 1
+                    ck.touch(f)
+                    ck.ob("C20-O4", "%s (%s)" % (f.loc(d), f.name.split("::")[-1]), False, "`auto %s = %s`: with QT_USE_QSTRINGBUILDER among the application's defines the single header makes %s a QStringBuilder "
+                          "referring to the temporary %s (%s), dead at the end of the statement; the library build has a QString. Declare the variable as QString." %
+                          (v.get("name"), describe(i)[:70], v.get("name"), describe(temps[0][0])[:30], temps[0][1]), key="auto-stringbuilder|%s|%s" % (f.name.split("::")[-1], v.get("name")))
+    ck.extra_coverage["auto_string_concatenations"] = {"examined": n, "notes": notes}
+    if not bad:
+        ck.ob("C20-O4", "src/qtlogger", True, "%d `auto` variables initialised by a string concatenation: none has a non-QString temporary operand" % n, key="auto-stringbuilder|none")
